@@ -210,3 +210,5 @@ package shell
 // C04: a session key is never wiped while tunnel code of this package may still seal data with it (a wiped key is
 // all-zero, i.e. known to every transit): no function of this package zeroes a session key.
 //@ census[C04] crypto.(*SessionKey).Zero in -
+//@ census[C25] (*Executor).ReleaseSession in (*Executor).NewSession, (*Executor).NewPTYSession, (*Handler).handleMetadata, (*Handler).releaseSession
+//@ note C25: a session slot is given back only by the start functions on their own error paths, by the metadata handler when it fails after a successful start, and by the stream handler when a stream ends - in particular not by the goroutines that reap the child process (a second release would free the slot of another running session)
